@@ -285,7 +285,9 @@ def _decoded1(lp, stream_len):
     fe = lp.header.get('file_entry')
     # a DW_LNE_define_file with an empty name (out of domain) has no further fields: the model reports 0
     added = [[b'', 0, 0, 0] if not e.name else _fe(e) for e in list(fe)[before:]] if fe is not None else []
-    return ['ok', [rows, added, lp.program_end_offset - lp.stream.tell()]]
+    # the loop's final `offset`: stream.tell() after the last instruction, or the start if it never ran
+    final = lp.stream.tell() if lp.program_start_offset < lp.program_end_offset else lp.program_start_offset
+    return ['ok', [rows, added, lp.program_end_offset - final]]
 
 
 def _view(lp):
